@@ -8,6 +8,7 @@ import (
 	"fmt"
 	"io/ioutil"
 	"net"
+	"net/http"
 	"net/url"
 	"os"
 	"sort"
@@ -50,6 +51,13 @@ var idStrings = []string{"", "bk1", "bk2", "bk 3/x", "Bk1", "b%2Fk"}
 
 func (o Op) coq() string {
 	switch o.K {
+	case "HDenyAbandoned":
+		// the caller gave up while the handler was blocked on the deny channel: the store operation has
+		// happened (or the request was refused outright with 400); for the model this is the plain method
+		if o.AE { // AE doubles as "was refused outright"
+			return lib.App("HDeny", lib.N(o.ID), lib.Z(o.E))
+		}
+		return lib.App("ODeny", lib.N(o.ID), lib.Z(o.E))
 	case "ODeny", "OAllow", "HDeny", "HAllow":
 		return lib.App(o.K, lib.N(o.ID), lib.Z(o.E))
 	case "OIsDenied":
@@ -96,7 +104,10 @@ type api struct {
 	ds     *deny.Store
 	secret string
 	ae     bool
-	r      *lib.Relay // only Do/Deny/... helpers are used
+	r      *lib.Relay    // only Do/Deny/... helpers are used
+	dc     chan string   // the deny channel towards the (absent) crossbar, capacity 1
+	paused int32         // 1: the drainer leaves the channel alone (a slow crossbar)
+	ack    chan struct{} // the drainer confirms that it has seen paused == 1
 }
 
 var clock int64 // shared mocked clock (seconds)
@@ -107,9 +118,21 @@ func startAPI(ae bool) *api {
 	port := lib.FreePorts(1)[0]
 	ds := deny.New()
 	ds.SetNowFunc(now)
-	dc := make(chan string, 64)
+	dc := make(chan string, 1)
+	a := &api{dc: dc, ack: make(chan struct{})}
 	go func() {
-		for range dc {
+		for {
+			if atomic.LoadInt32(&a.paused) == 1 {
+				select {
+				case a.ack <- struct{}{}:
+				case <-time.After(2 * time.Millisecond):
+				}
+				continue
+			}
+			select {
+			case <-dc:
+			case <-time.After(2 * time.Millisecond):
+			}
 		}
 	}()
 	closed := make(chan struct{})
@@ -138,7 +161,8 @@ func startAPI(ae bool) *api {
 	}
 	rl := &lib.Relay{AccessURL: u, Secret: "c10secret"}
 	rl.HTTP = lib.NewHTTPClient()
-	return &api{url: u, ds: ds, secret: "c10secret", ae: ae, r: rl}
+	a.url, a.ds, a.secret, a.ae, a.r = u, ds, "c10secret", ae, rl
+	return a
 }
 
 func (a *api) reset() {
@@ -201,6 +225,26 @@ func (a *api) exec(o Op) Out {
 	case "HDeny":
 		rs := a.r.Deny(id, o.E, a.admin())
 		return Out{K: "S", S: class(status(rs))}
+	case "HDenyAbandoned":
+		// a slow crossbar: the deny channel is full, the handler blocks on its send after Deny() has
+		// been applied, and the caller times out after 300 ms
+		atomic.StoreInt32(&a.paused, 1)
+		<-a.ack // from here on the drainer does not touch the channel
+		select {
+		case a.dc <- "filler":
+		default:
+		}
+		short := &lib.Relay{AccessURL: a.url, Secret: a.secret, HTTP: &http.Client{Timeout: 300 * time.Millisecond}}
+		rs := short.Deny(id, o.E, a.admin())
+		atomic.StoreInt32(&a.paused, 0)
+		time.Sleep(60 * time.Millisecond) // the handler finishes (or rolls back) once the channel drains
+		if rs.Err == nil && (rs.Status == 400 || rs.Status == 422) {
+			return Out{K: "S", S: 400}
+		}
+		if rs.Err == nil {
+			return Out{K: "S", S: class(rs.Status)}
+		}
+		return Out{K: "U"}
 	case "HAllow":
 		rs := a.r.Allow(id, o.E, a.admin())
 		return Out{K: "S", S: class(status(rs))}
@@ -261,9 +305,15 @@ func genHistory(r *lib.Rng, t0 int64, ae bool, handlerLevel bool) []Op {
 		}
 		return t + int64(r.Range(1, 6))
 	}
+	abandonAt := -1 // at most one abandoned deny per history, in a fifth of the handler-level histories
+	if handlerLevel && r.Chance(1, 5) {
+		abandonAt = r.Intn(n)
+	}
 	for i := 0; i < n; i++ {
 		var o Op
 		switch x := r.Intn(100); {
+		case i == abandonAt:
+			o = Op{K: "HDenyAbandoned", ID: pickID(), E: pickExp()}
 		case x < 18:
 			o = Op{K: "HDeny", ID: pickID(), E: pickExp()}
 		case x < 34:
@@ -364,6 +414,15 @@ func oracle(c Case, idx int, res *lib.Result) {
 			reg[o.ID] = entry{true, o.E}
 		case "OAllow":
 			reg[o.ID] = entry{false, o.E}
+		case "HDenyAbandoned":
+			if o.ID != 0 && o.E >= t { // the deny was applied before the handler blocked
+				reg[o.ID] = entry{true, o.E}
+				if ob.K == "S" {
+					bad(i, "abandoned-request-not-blocked", fmt.Sprintf("status %d", ob.S))
+				}
+			} else if ob.K != "S" || ob.S != 400 {
+				bad(i, "bad-request-accepted", "empty id or past expiry was not refused outright")
+			}
 		case "HDeny", "HAllow":
 			valid := o.ID != 0 && o.E >= t
 			if valid {
@@ -445,6 +504,9 @@ func main() {
 			go func(o Op) { done <- ap.exec(o) }(o)
 			select {
 			case out := <-done:
+				if o.K == "HDenyAbandoned" && out.K == "S" && out.S == 400 {
+					c.Ops[i].AE = true // refused outright
+				}
 				c.Outs = append(c.Outs, out)
 			case <-time.After(4 * time.Second):
 				hung++
